@@ -9,8 +9,8 @@ TEXT["C12"] = dict(
          "this run accepts exactly the frames of its field-level specification; plus a correspondence run of the same programs in x/net/bpf's VM "
          "against the Coq interpreter and the spec over the equivalence classes the property lists.",
     note="Tie kind A: programs are dumped from /repo via a verif-tagged accessor and the TCP generator is templated with marker configurations "
-         "then re-validated. Trusted: Coq kernel, the dump/template translator, x/net/bpf VM = kernel cBPF semantics. Linking property (matcher hop => installed filter accepts): refuted by a machine-checked witness (IPv6 hop-by-hop before ICMPv6 = the recorded known finding); "
-         "for every other frame the lab delivers it is checked on the implementation (real programs in bpf.VM vs real drivers), which is not a proof: PARTIAL.",
+         "then re-validated. Trusted: Coq kernel, the dump/template translator, x/net/bpf VM = kernel cBPF semantics. Linking property (matcher hop => installed filter accepts): the unrestricted statement is refuted by a machine-checked witness (IPv6 hop-by-hop before ICMPv6 = the recorded known finding); "
+         "the restricted statement is PROVED: for every variant, every driver state and every frame that is not IPv6-with-hop-by-hop-first, a frame the matcher turns into a hop is accepted by the installed program (C12_filter_accepts_every_hop), and every segment the SACK handshake reader reacts to passes the SYN-ACK program. The proof goes through the decoder MODEL (gopacket modelled, validated by the correspondence); the lab re-checks the linking on the real programs and drivers.",
     technique="Coq proof over a cBPF interpreter on programs regenerated from source + differential run against bpf.VM",
 )
 
@@ -63,7 +63,7 @@ TEXT["C08"] = dict(
     text="Coq theorems on the timed models: for ANY network script the parallel engine returns before timeout + delay*count + poll and the serial engine within count*max(timeout+poll, delay); with the caller's context cancelled at any "
          "instant the receiver leaves within one poll interval and the sender within one send delay; GetPublicIP ends within providers x per-checker timeout for ANY provider behaviour; constants regenerated from source. "
          "Correspondence: real engines (incl. cancellation at arbitrary instants), real GetPublicIP over a stalling RoundTripper and real reverse-DNS fan-out over a stalled resolver, elapsed virtual time compared exactly.",
-    note="PARTIAL: oracles — Source.Read returns by its deadline; HTTP client / resolver return by the deadline of the context they are given. The SACK handshake reader is modelled with time and bounded by its single 500 ms deadline for every packet stream (real reader compared under the virtual clock); the whole SACK run is bounded by composition (dial under the run context is an oracle). The RunTraceroute-level sum is not modelled; serial-engine cancellation is checked on the implementation only.",
+    note="PARTIAL: oracles — Source.Read returns by its deadline; HTTP client / resolver return by the deadline of the context they are given. The SACK handshake reader is modelled with time and bounded by its single 500 ms deadline for every packet stream (real reader compared under the virtual clock); the whole SACK run is bounded by composition (dial under the run context is an oracle); the shape of the reader in the source (one deadline armed before the loop, none inside, 500 ms) is regenerated on every run (tools/goextract/structure.go) and equated with the model. The RunTraceroute-level sum is not modelled; serial-engine cancellation is checked on the implementation only.",
     technique="Coq proof (fuel-indexed induction on timed engine models, bound invariant) + differential timing of the real code under synctest's virtual clock")
 
 _DRVNOTE = ("Tie kind B. The byte-level decoders/builders model third-party gopacket code and are validated, not verified; the theorems are about the matchers' logic on the parsed view plus the decoders' totality. "
@@ -73,7 +73,7 @@ TEXT["C01"] = dict(text="Coq theorems, all variants / tables / packets / clocks:
     technique="Coq proof (case analysis of the matchers against an independent genuineness predicate) + differential run of the real drivers over the full perturbation lattice")
 TEXT["C02"] = dict(text="Coq theorem: every packet whose parsed view is a genuine reply to the probe with TTL t yields the hop (t, responder, right destination flag) — with soundness, the matcher decides exactly `genuine`. "
     "Correspondence: every catalogue form built by independent builders from the emitted probe bytes must be recognised with the expected TTL and responder, for every variant incl. strict/relaxed and ISN/base wrap-around.",
-    note=_DRVNOTE + " Byte-level completeness is proved for all field values for the main IPv4 forms (ICMP error quoting 28 bytes of the probe the model builder emits, echo reply, direct TCP reply) and IPv6 forms (ICMPv6 time-exceeded quoting the whole probe, echo reply, UDP errors) through the whole receive path, and the engine lift (every reply readable by the deadline for a sent TTL is accepted, any script) is proved for the parallel engine. PARTIAL: IP options / extension headers, RFC 4884 forms, truncated IPv6 quotes, TCP over IPv6, SACK forms and the serial engine lift are correspondence-only.",
+    note=_DRVNOTE + " Byte-level completeness is proved for all field values for the main IPv4 forms (ICMP error quoting 28 bytes of the probe the model builder emits, echo reply, direct TCP reply) and IPv6 forms (ICMPv6 time-exceeded quoting the whole probe, echo reply, UDP errors) through the whole receive path, and the engine lift (every reply readable by the deadline for a sent TTL is accepted, any script) is proved for the parallel engine. PARTIAL: IP options / extension headers, RFC 4884 forms, truncated IPv6 quotes, TCP over IPv6, SACK forms are correspondence-only; the serial engine lift is proved for the histories C02 names (one reply per TTL, each within its window, no rogue driver).",
     technique="Coq proof (matcher = genuineness predicate, both directions) + differential run of the real drivers on an independently built device catalogue")
 TEXT["C04"] = dict(text="Coq theorems: destination flag = the protocol's proof-of-arrival predicate on the packet used; a reply from any non-target address is never proof of arrival; a time-exceeded never marks the destination for ICMP/TCP SYN; e2e RTT = destination hop's RTT or 0. "
     "Correspondence: each destination-form reply from the target, from a router and (lattice) from other addresses with identical identifiers, through the real drivers; e2e value through the real RunTraceroute.", note=_DRVNOTE,
@@ -104,10 +104,11 @@ TEXT["C11"] = dict(text="Coq theorems: IP-ID blocks from ANY allocation sequence
     note="PARTIAL: bit-for-bit equality with the solo result is not provable (nor true) for replies that become readable within one poll interval after the deadline; the engine lift is proved for the parallel engine only; cross-protocol pairs are correspondence-only (shared-wire lab mixes protocols). Residues named in DESIGN (relaxed SACK to one target, Paris mode, UDP fixed IP-ID block).",
     technique="Coq proof (modular arithmetic over all counter values; identifier-collision lemma on the genuineness predicate) + differential run of real allocators, of real driver pairs and of concurrent real runs on a shared simulated wire")
 
-TEXT["C10"] = dict(text="Coq theorems over EVERY plan of engine operations and EVERY injected fault (operation, k, class) of the lifecycle program: handles opened are closed exactly once and never used afterwards, the outcome is a success or an error that keeps the cause (zero-length read excepted), an unreached fault changes nothing; never a partial path (C03). "
+TEXT["C10"] = dict(text="Tie kind A: every function of /repo that calls packets.NewSourceSink is translated on every run (tools/goextract/lifecycle.go) into a program over handle operations (open, fallible step + error block, branch, close, defer, return); Coq proves that EVERY execution of every extracted program closes an opened handle pair exactly once each and never before opening it (enumeration of all paths + soundness theorem; statements the translator does not understand are rejected). "
+    "Coq theorems over EVERY plan of engine operations and EVERY injected fault (operation, k, class) of the lifecycle program: handles opened are closed exactly once and never used afterwards, the outcome is a success or an error that keeps the cause (zero-length read excepted), an unreached fault changes nothing; never a partial path (C03). "
     "Correspondence + fault enumeration: the real entry points (udp/icmp v4+v6, tcp syn; SACK via the policy lab) over the simulated wire with one fault at every reachable (operation, k) x class.",
-    note="PARTIAL: the lifecycle program abstracts the entry points' control flow by hand; goroutine termination is observed, not proved; faults below the Source/Sink seam are out of reach.",
-    technique="Coq proof over an abstract lifecycle program (all plans, all faults) + exhaustive fault injection into the real entry points over a simulated wire")
+    note="PARTIAL: the fault/cause model ([run_entry]) abstracts the entry points' control flow by hand; the translator is syntactic (top-level statements, simple error blocks, driver.Close resolved by finding a Close method that closes sink and source once each); goroutine termination is observed, not proved; faults below the Source/Sink seam are out of reach.",
+    technique="Coq proof over handle programs regenerated from the source on every run (all paths) and over an abstract lifecycle program (all plans, all faults) + exhaustive fault injection into the real entry points over a simulated wire")
 
 TEXT["C14"] = dict(text="Coq theorem for ANY access table: if every pair of conflicting accesses (same location, one a write, different thread instances, while the goroutines run) shares a lock, then under every interleaving and lock state no two conflicting accesses are ever enabled together; "
     "the table regenerated from the Go source on this run satisfies the discipline (vm_compute over the finite table), hence no data race in the drivers, the parallel engine, the multi-query aggregator and the reverse-DNS fan-out. "
